@@ -612,3 +612,85 @@ def path_mapping(ctx, rid):
         body_uses_layers = any("piece_layers" in norm(x) for st in tests[0].body for x in ast.walk(st))
         ctx.decide(rid, nf, strict and body_uses_layers, "reader looks a file up in piece layers iff length > piece length (the creators' predicate, strict)",
                    "reader's piece-layer predicate is %s; the creators (and BEP 52) use length > piece length: a file of exactly one piece has no layer entry and raises KeyError / is compared against the wrong hashes" % norm(t), t)
+
+
+# ------------------------------------------------------------------------------------------ R10 exhaustion guard (v2)
+def exhaustion_guard(ctx, rid):
+    """When a file's hasher is exhausted early (truncated file), the decision to continue with zero padding must cover every
+    recorded piece of the file: it compares the per-file counter with the number of recorded hashes, or a ceiling division."""
+    fn = ctx.prog.func("torrentfile.recheck:HashChecker.process_current")
+    consts = module_consts(ctx.prog.modules["torrentfile.recheck"])
+    handlers = [h for n in own_nodes(fn.node) if isinstance(n, ast.Try) for h in n.handlers if h.type is not None and "StopIteration" in norm(h.type)]
+    if not handlers:
+        ctx.undecided(rid, fn, "StopIteration handler of process_current not found")
+        return
+    tests = [st for h in handlers for st in h.body if isinstance(st, ast.If)]
+    if not tests:
+        ctx.violated(rid, fn, "when the file on disk ends early nothing stands in for the missing pieces: a truncated file's remaining pieces are never compared", handlers[0])
+        return
+    for st in tests:
+        atoms = C.atoms_of(st.test)
+        judged = False
+        for a in atoms:
+            if not (isinstance(a, ast.Compare) and len(a.ops) == 1):
+                continue
+            l, r = a.left, a.comparators[0]
+            txt = norm(a)
+            if "count" not in txt:
+                continue
+            judged = True
+            other = r if "count" in norm(l) else l
+            verdict, why = classify_piece_total(ctx, fn, other, consts)
+            if "len(" in txt and "pieces" in txt:
+                verdict, why = "ok", "compares the counter with the recorded hash string"
+            if verdict == "ok":
+                ctx.holds(rid, fn, "early exhaustion is padded while recorded pieces remain (%s)" % why, a)
+            elif verdict == "bad":
+                ctx.violated(rid, fn, "the number of pieces a truncated file still owes is computed as %s: a final partial piece is not counted, so a file cut exactly at its last full piece boundary checks as complete" % why, a)
+            else:
+                ctx.undecided(rid, fn, "piece-count bound %s not understood" % norm(other), a)
+        if not judged:
+            rem = [a for a in atoms if "length" in norm(a)]
+            if rem:
+                ctx.holds(rid, fn, "early exhaustion is padded while recorded length remains (%s)" % norm(st.test), st.test)
+            else:
+                ctx.undecided(rid, fn, "guard of the early-exhaustion padding not understood: %s" % norm(st.test), st.test)
+
+
+def classify_piece_total(ctx, fn, e, consts, depth=0):
+    """'ok' for ceil(length / piece_length) in any spelling or a count derived from the recorded hashes, 'bad' for floor division."""
+    txt = norm(e)
+    if depth > 4:
+        return "?", txt
+    if isinstance(e, ast.Attribute) and isinstance(e.value, ast.Name) and e.value.id == fn.self_name:
+        vals = []
+        for m in (fn.cls.methods.values() if fn.cls else []):
+            for n in own_nodes(m.node):
+                if isinstance(n, ast.Assign) and any(norm(t) == txt for t in n.targets):
+                    vals.append((n.value, m))
+        if not vals:
+            return "?", txt
+        res = [classify_piece_total(ctx, m, v, consts, depth + 1) for v, m in vals]
+        if any(r[0] == "bad" for r in res):
+            return "bad", "; ".join(r[1] for r in res if r[0] == "bad")
+        if all(r[0] == "ok" for r in res):
+            return "ok", "; ".join(r[1] for r in res)
+        return "?", txt
+    if isinstance(e, ast.Constant) and e.value == 1:
+        return "ok", "1 (single-piece file)"
+    if isinstance(e, ast.Call) and norm(e.func) in ("math.ceil", "ceil"):
+        return "ok", txt
+    if isinstance(e, ast.BinOp) and isinstance(e.op, ast.FloorDiv):
+        l, r = e.left, e.right
+        if "len(" in norm(l) and "pieces" in norm(l):
+            return "ok", txt
+        if isinstance(l, ast.UnaryOp) and isinstance(l.op, ast.USub):
+            return "?", txt
+        if isinstance(l, ast.BinOp) and isinstance(l.op, (ast.Add, ast.Sub)) and "piece_length" in norm(l) and "1" in norm(l):
+            return "ok", txt          # (length + P - 1) // P
+        if "length" in norm(l) and "piece_length" in norm(r):
+            return "bad", txt
+    if isinstance(e, ast.UnaryOp) and isinstance(e.op, ast.USub) and isinstance(e.operand, ast.BinOp) and isinstance(e.operand.op, ast.FloorDiv) \
+            and isinstance(e.operand.left, ast.UnaryOp):
+        return "ok", txt              # -(-length // P)
+    return "?", txt
